@@ -146,6 +146,27 @@ func c18(r *hx.Run) {
 		w, vo := build(f)
 		run(w.Quote, vo, defVal(nonce), "vfault:"+name)
 	}
+	// the verification gate under every checking level and with each collateral endpoint unavailable: no class of verification
+	// error (download failure, CRL unavailable, …) opens the gate, whatever is wrong or right with the quote
+	endpoints := map[string]func(s *world.Spec){
+		"all-reachable":  func(s *world.Spec) {},
+		"tcbinfo-fails":  func(s *world.Spec) { s.TcbResp.Fetch = "fail" },
+		"qeid-fails":     func(s *world.Spec) { s.QeResp.Fetch = "fail" },
+		"pckcrl-fails":   func(s *world.Spec) { s.PckCrl.Fetch = "fail" },
+		"pckcrl-garbage": func(s *world.Spec) { s.PckCrl.Fetch = "garbage" },
+		"rootcrl-fails":  func(s *world.Spec) { s.RootCrls[0].Fetch = "fail" },
+	}
+	vfaults["none"] = func(s *world.Spec) {}
+	for name, f := range vfaults {
+		for ename, ef := range endpoints {
+			for _, lv := range [][2]bool{{true, false}, {true, true}} {
+				name, f, ef, lv := name, f, ef, lv
+				w, vo := build(func(s *world.Spec) { f(s); ef(s); s.GC, s.CR = lv[0], lv[1] })
+				run(w.Quote, vo, defVal(nonce), "vfault:"+name, "endpoint:"+ename, fmt.Sprintf("level:gc%dcr%d", hx.B(lv[0]), hx.B(lv[1])))
+			}
+		}
+	}
+	delete(vfaults, "none")
 	// policy faults
 	w, vo = build(nil)
 	pol := func(f func(o *validate.Options)) *validate.Options { o := defVal(nonce); f(o); return o }
